@@ -66,7 +66,8 @@ CLAIMED["C13"] = dict(
          "snapshot of the producers-finished flag (never the live flag), every pass through the decision block kills or "
          "uses a retry (bounded attempts), task generation only when able to consume and with new output, notification "
          "wiring on every stageIn path, poll fires when producers are finished, the monitor runs one last action after "
-         "cancel, exit reason only after cancel, and an expired kill delay is serviced by the next pass (every feasible "
+         "cancel, exit reason only after cancel, a stop happens only after an execution in the same pass (or retries exhausted / "
+         "kill timer), and an expired kill delay is serviced by the next pass (every feasible "
          "path that sees _suicide with lastAction False reaches kill(); feasibility = consistency of repeated tests of "
          "lastAction/_suicide and their copies). The timing quantifier (where the notification lands between polls, NFS "
          "latency) cannot be bounded statically and is not claimed.",
@@ -76,7 +77,9 @@ CLAIMED["C13"] = dict(
 
 CLAIMED["C03"] = dict(
     text="Decides structural necessary conditions of replication: reference rewriting in replica/aggregate compilation "
-         "must be escaped and boundary-anchored (SUB rule; two genuine defects found by it were repaired), the relative "
+         "must be escaped and boundary-anchored (SUB rule; two genuine defects found by it were repaired) and, being applied "
+         "key after key to one string, ordered longest-first so that inserted text is never rewritten again (a third "
+         "defect, repaired), the relative "
          "spelling of a replicated producer is rewritten only for consumers in the producer's stage, replica names and rewritten references share one format and index, indices run over range(N), a "
          "reference counts as replicated only for a positive propagated count of a non-aggregating producer, every "
          "component is emitted by one branch, counts propagate topologically and stop at aggregating components. "
@@ -134,7 +137,9 @@ CLAIMED["C04"] = dict(
          "to accessors, platform layers only for non-default platforms), order of the option layers and the left fold "
          "with override_object(ret, layer), the 'higher layer wins unless None' branches of override_object, injection of "
          "user variables as platform-stage variables for every platform/stage before the description is copied, "
-         "handlers that may swallow an unknown variable only under ignore_errors / primitive 'replica', and typed-option "
+         "handlers that may swallow an unknown variable only under ignore_errors / primitive 'replica', interpolate rescans "
+         "the whole string after every substitution (scan position advanced only under a tolerance guard, by one "
+         "character), the resolver cache is transparent (C08 analysis re-used), and typed-option "
          "table agreement (schema admits bool/int/float => a string-safe converter exists). Covers every combination "
          "of layers; value equality with an independent resolver is not decided.",
     technique="statement-order and CFG analysis of the resolver, handler swallow-path analysis, schema/converter "
